@@ -229,6 +229,16 @@ fn client_media_history() -> BoxedStrategy<c10::Case> {
         .boxed()
 }
 
+pub fn fuzz_strategy() -> BoxedStrategy<Case> {
+    prop_oneof![
+        (c09::case_strategy(25), clock(), any::<u32>()).prop_map(|(h, clock, sample)| Case { history: History::Server(h), clock, sample }),
+        (c10::case_strategy(25), clock(), any::<u32>()).prop_map(|(h, clock, sample)| Case { history: History::Client(h), clock, sample }),
+        (server_media_history(), clock(), any::<u32>()).prop_map(|(h, clock, sample)| Case { history: History::Server(h), clock, sample }),
+        (client_media_history(), clock(), any::<u32>()).prop_map(|(h, clock, sample)| Case { history: History::Client(h), clock, sample }),
+    ]
+    .boxed()
+}
+
 pub fn spec() -> PropSpec {
     PropSpec {
         id: "C18",
